@@ -83,7 +83,24 @@ class SimFile:
         self.close()
         return False
 
+    def __del__(self):
+        # a file object dropped without close(): the interpreter closes it in the finaliser, where an error of the deferred
+        # flush is ignored ("Exception ignored in ...") - the bytes that the failing close loses are lost silently
+        try:
+            if not self._closed and self.__dict__.get('_f') is not None:
+                self._closed = True
+                try:
+                    self._w.io_event('close', self, None, implicit=True)
+                except OSError:
+                    pass
+                finally:
+                    self._f.close()
+        except Exception:
+            pass
+
     def __getattr__(self, k):
+        if k == '_f':
+            raise AttributeError(k)
         return getattr(self._f, k)
 
     @property
@@ -232,7 +249,7 @@ class World:
         except FileNotFoundError:
             return None
 
-    def io_event(self, kind, sf, data):
+    def io_event(self, kind, sf, data, implicit=False):
         """Called before the real effect of open/write/close. Returns bytes written for writes."""
         f = self._fault_for(kind)
         idx = self.ev
@@ -283,10 +300,13 @@ class World:
                         pass
                 self.ev += 1
                 en = f.get('errno', errno.EIO)
-                self._record(idx, 'close', sf, 0, 0, 'OSError(%d)' % en, f)
+                self._record(idx, 'close', sf, 0, 0, 'OSError(%d)%s' % (en, ' ignored in finaliser' if implicit else ''), f)
                 raise OSError(en, os.strerror(en))
             self.ev += 1
             self._record(idx, 'close', sf, 0, 0, None, None)
+            if implicit:
+                self.events[-1]['implicit'] = True
+                return 0
             if f and f['kind'] == 'crash':
                 f['_fired'] = True
                 self.fault_trace.append({'event': idx, 'call': 'close', 'raised': 'CRASH(after)'})
